@@ -230,7 +230,13 @@ func (c05) Gen(rng *simrt.Rand, seed uint64, tier string) *Case {
 		sinksA = append(sinksA, SinkSpec{Mode: "async", Fault: "panic", Every: 1 + rng.Intn(3)})
 		faulty = true
 	case 1:
-		sinksA = append(sinksA, SinkSpec{Mode: "sync", Fault: "panic", Every: 1 + rng.Intn(3)})
+		ps := SinkSpec{Mode: "sync", Fault: "panic", Every: 1 + rng.Intn(3), Alias: 3}
+		if rng.Bool(0.5) {
+			// registered BEFORE the observing sinks: its panic must not keep the result from them
+			sinksA = []SinkSpec{ps, {Mode: "sync", Alias: 1}, {Mode: "async", Alias: 2}}
+		} else {
+			sinksA = append(sinksA, ps)
+		}
 		faulty = true
 	case 2:
 		sinksA = append(sinksA, SinkSpec{Mode: "async", Fault: "slow", Every: 1, D: int64([]time.Duration{time.Millisecond, 50 * time.Millisecond}[rng.Intn(2)])})
